@@ -77,10 +77,7 @@ def lowerFix (ext : List Nat → Bool) (n : List Nat) : Bool :=
   if isASCII n then !n.any isUpper else ext n
 
 /-- `qpack.HeaderField.IsPseudo` -/
-def isPseudo (n : List Nat) : Bool :=
-  match n with
-  | 58 :: _ => true
-  | _ => false
+def isPseudo (n : List Nat) : Bool := n.head? == some 58
 
 /-- the capitalisation loop of `textproto.canonicalMIMEHeaderKey` -/
 def canonGo : Bool → List Nat → List Nat
@@ -355,5 +352,24 @@ def updateResponseFromHeaders (ext : List Nat → Bool) (limit : Int) (fs : List
       match atoi hdr.status with
       | none => .error .badStatus
       | some c => .ok { status := c, contentLength := hdr.contentLength, headers := hs', trailer := tr }
+
+/-! ### what the callers do with a rejection (server_conn.go handleRequestStream, stream.go ReadResponse) -/
+
+structure Reaction where
+  /-- error code of CancelRead (and, unless a 431 response is written instead, of CancelWrite) -/
+  code : Int
+  /-- the server answers with a 431 response instead of resetting the send side -/
+  sends431 : Bool
+deriving DecidableEq, Repr
+
+/-- `if errors.Is(err, errHeaderTooLarge) {…}; errCode := …; if errors.As(err, &qpackErr) {…}` -/
+def serverReaction (e : Err) : Reaction :=
+  if srvTooLargeSpecial && e = .tooLarge then { code := srvErrTooLarge, sends431 := srvTooLargeSends431 }
+  else if e = .qpack then { code := srvErrQpack, sends431 := false }
+  else { code := srvErrDefault, sends431 := false }
+
+/-- `errCode := …; if errors.As(err, &qpackErr) {…}` (no special case for errHeaderTooLarge) -/
+def clientReaction (e : Err) : Reaction :=
+  if e = .qpack then { code := cliErrQpack, sends431 := false } else { code := cliErrDefault, sends431 := false }
 
 end Uquic.Model.H3.Fields
